@@ -38,4 +38,6 @@ DaysFromCivil(y0, m, d) ==
 \* Unix seconds as int64
 UnixSecs(y, m, d, hh, mi, ss) ==
   Add64(Mul64(FromInt(DaysFromCivil(y, m, d)), FromNat(86400)), FromNat(hh * 3600 + mi * 60 + ss))
+\* the same wall clock read in a zone `off` seconds east of UTC (layouts with a zone offset)
+UnixSecsAt(y, m, d, hh, mi, ss, off) == Sub64(UnixSecs(y, m, d, hh, mi, ss), FromInt(off))
 =============================================================================
